@@ -38,9 +38,10 @@ def load_findings():
     return out
 
 
-def match_finding(pid, v, findings):
+def match_finding(pid, v, findings, tier=None):
     """a known entry suppresses an aggregated violation only if the class key is
-    the same and the violation's ordered coordinate range lies inside the entry's"""
+    the same, the violation's ordered coordinate range lies inside the entry's and
+    no more cases fail than the entry records for this tier"""
     for f in findings:
         if f.get("status") != "known" or f.get("property") != pid:
             continue
@@ -49,6 +50,11 @@ def match_finding(pid, v, findings):
         if "lo" in f and v["lo"] < f["lo"]:
             continue
         if "hi" in f and v["hi"] > f["hi"]:
+            continue
+        nmax = f.get("n")
+        if isinstance(nmax, dict):
+            nmax = nmax.get(tier)
+        if nmax is not None and v["n"] > nmax:
             continue
         return f
     return None
@@ -233,7 +239,7 @@ def run_check(pid, tier):
         unlisted = []
         for key in sorted(viols, key=lambda k: (viols[k]["ord"], k)):
             v = viols[key]
-            f = match_finding(pid, v, findings)
+            f = match_finding(pid, v, findings, tier)
             if f is not None:
                 known_hit.setdefault(f["key"], (f, 0))
                 known_hit[f["key"]] = (f, known_hit[f["key"]][1] + v["n"])
@@ -244,6 +250,11 @@ def run_check(pid, tier):
             unlisted.append(dict(key="%s|worker died: %s" % (pname, why), n=1, ord=0, lo=0, hi=0,
                                  case="%s:@worker %s" % (pname, " ".join(cmd[1:])), detail=why,
                                  cmd=" ".join(cmd), part=pname))
+        if os.environ.get("VERIF_EMIT_FINDINGS"):
+            with open(os.environ["VERIF_EMIT_FINDINGS"], "a") as ef:
+                for v in unlisted:
+                    ef.write(json.dumps(dict(status="known", property=pid, key=v["key"], lo=v["lo"], hi=v["hi"],
+                                             n={tier: v["n"]}, example=v.get("cmd") or v["case"], what=v["detail"])) + "\n")
         rc = 0
         for key, (f, n) in sorted(known_hit.items()):
             print("KNOWN-FINDING: property=%s %s [class %s, %d cases]" % (pid, f.get("what", ""), key, n))
